@@ -16,6 +16,24 @@ from cfg import cfg_of, EXIT
 sys.setrecursionlimit(100000)
 
 
+class TyBox:
+    """hashable wrapper of a type (path steps must be hashable)"""
+    __slots__ = ("ty", "_k")
+
+    def __init__(self, ty):
+        self.ty = ty
+        self._k = T.tkey(ty)
+
+    def __hash__(self):
+        return hash(self._k)
+
+    def __eq__(self, o):
+        return isinstance(o, TyBox) and self._k == o._k
+
+    def __repr__(self):
+        return T.tstr(self.ty)
+
+
 class Undecided(Exception):
     """the analysis cannot decide (fail closed)"""
 
@@ -129,6 +147,7 @@ class Executor:
         self.const_mem = {}
         self.frames = {}
         self.root_types = {}
+        self.discharged = 0
 
     # ================================================================ naming / symbols
     def fresh(self, base):
@@ -247,9 +266,10 @@ class Executor:
             return self.const_mem[root]
         if v is None:
             if root[0] == "O":
-                if pty is None:
+                rty = self.root_types.get(root)
+                if rty is None:
                     raise Undecided("unmaterialised object %s without type" % (root,))
-                v = self.mk_sym(pty, root[1])
+                v = self.mk_sym(rty, root[1])
                 st.mem[root] = v
             else:
                 return Undef
@@ -266,14 +286,14 @@ class Executor:
             if isinstance(v, SymV):
                 e = self.expand_sym(v)
                 if e is None:
-                    return self.mk_sym(step[2], "%s.%d" % (v.name, step[1])) if len(step) > 2 and step[2] else Undef
+                    return self.mk_sym(step[2].ty, "%s.%d" % (v.name, step[1])) if len(step) > 2 and step[2] else Undef
                 v = e
             if isinstance(v, Agg):
                 if step[1] < len(v.fields):
                     return v.fields[step[1]]
                 return Undef
             if isinstance(v, Term) and len(step) > 2 and step[2] is not None:
-                return self.term_field(v, step[1], step[2])
+                return self.term_field(v, step[1], step[2].ty)
             raise Undecided("field %s of %r" % (step[1], v))
         if k == "d":
             if isinstance(v, SymV):
@@ -403,7 +423,7 @@ class Executor:
                 pv = self.resolve_ptr(st, pv)
                 root, path, meta, pty = pv.root, pv.path, pv.meta, pv.pty
             elif k == "field":
-                path = path + (("f", e["i"], T.subst(e["ty"], fr.subst)),)
+                path = path + (("f", e["i"], TyBox(T.subst(e["ty"], fr.subst))),)
                 meta = None
             elif k == "downcast":
                 path = path + (("d", e["variant"]),)
@@ -508,6 +528,13 @@ class Executor:
             if k == "closure":
                 return Agg("closure", ty["def"], None, [], ty, extra=fr.subst)
             return self.mk_sym(ty, self.fresh("zst"))
+        if "bytes" in o and k in ("ref", "ptr"):
+            arr = Agg("array", None, None, [IntV(8, False, p=Poly.const(b)) for b in o["bytes"]],
+                      {"k": "array", "ty": T.U8, "len": {"k": "const", "val": len(o["bytes"])}})
+            root = ("O", "lit:%s" % bytes(o["bytes"]).decode("utf8", "replace"))
+            self.const_mem[root] = arr
+            self.root_types[root] = arr.ty
+            return Ptr(root, (), IntV(self.pbits, False, p=Poly.const(len(o["bytes"]))), ty.get("ty"), False)
         if "bytes" in o:
             return Agg("array", None, None, [IntV(8, False, p=Poly.const(b)) for b in o["bytes"]],
                        {"k": "array", "ty": T.U8, "len": {"k": "const", "val": len(o["bytes"])}})
@@ -562,9 +589,8 @@ class Executor:
         fr = Frame(("c", self.counter), rec, body, subst, 0, ())
         saved = (self.terminated, self.dry)
         self.terminated = []
-        outs = self.run_region(st, fr, 0, None)
+        rets, _ = self.run_blocks(fr, {0: [st]})
         self.terminated, self.dry = saved
-        rets = [(s, v) for kind, s, v in outs if kind == "return"]
         if len(rets) != 1:
             raise Undecided("constant body of %s has %d return paths" % (rec["id"], len(rets)))
         s, v = rets[0]
@@ -653,6 +679,12 @@ class Executor:
         self.alias_defs[a] = p
         return [Poly.atom(("bit", a, i)) for i in range(width)]
 
+    def bits_cheap(self, p):
+        if p.const_value() is not None or p.is_atom() is not None:
+            return True
+        atoms = p.atoms()
+        return all(is_bool_atom(x) for x in atoms) and len(atoms) <= 10
+
     def int_bits(self, v, facts):
         if v.bv is None:
             v.bv = self.poly_to_bits(v.poly(), v.bits, v.signed, facts)
@@ -668,7 +700,7 @@ class Executor:
             if facts.entails_ge0(p - tlo, 2, 2) and facts.entails_ge0(thi - p, 2, 2):
                 return IntV(bits, signed, p=p)
         # wrapping: go through bits when possible
-        bv = self.poly_to_bits(p, bits, signed, facts) if (lo is not None and lo >= 0) else None
+        bv = self.poly_to_bits(p, bits, signed, facts) if (lo is not None and lo >= 0 and self.bits_cheap(p)) else None
         if bv is not None:
             return IntV(bits, signed, bv=bv)
         name = self.fresh("wrap(%s)" % why)
@@ -795,7 +827,9 @@ class Executor:
             # value-changing cast: note it (E4 obligation) and wrap
             self.note(st, fr, "lossy_cast", {"from": (v.bits, v.signed), "to": (bits, signed), "value": repr(p),
                                              "range": (lo, hi)}, span)
-            if v.bits >= bits and not (lo is not None and lo < 0 and False):
+            if v.bv is None and not self.bits_cheap(p):
+                return self.wrap(p, bits, signed, facts, "cast")
+            if v.bits >= bits:
                 bv = self.int_bits(v, facts)[:bits]
                 return IntV(bits, signed, bv=list(bv))
             bv = self.int_bits(v, facts)
@@ -893,12 +927,6 @@ class Executor:
         # live / intrinsic(assume) are no-ops for the abstraction
 
     # ================================================================ control flow
-    def assume(self, st, cond, val=1):
-        """fork-side assumption; returns False if infeasible"""
-        if not st.facts.assume(cond, val):
-            return False
-        return True
-
     def feasible(self, st, cond):
         c = st.facts.simplify(cond)
         cv = c.const_value()
@@ -908,14 +936,13 @@ class Executor:
             return False
         return True
 
-    def switch_conds(self, st, D, arms):
-        """[(cond poly, target)] for every feasible switch edge. D: discriminant poly."""
+    def switch_conds(self, st, D):
+        """discriminant poly -> (dict value -> cond poly) | 'generic', or constant"""
         D = st.facts.simplify(D)
         c = D.const_value()
         if c is not None:
             return None, c
         atoms = D.atoms()
-        conds = []
         if all(is_bool_atom(a) for a in atoms) and len(atoms) <= 12:
             atoms = sorted(atoms, key=repr)
             n = len(atoms)
@@ -942,103 +969,100 @@ class Executor:
             return by_val, None
         return "generic", None
 
-    def run_region(self, st, fr, bb, stop):
-        """execute from block bb until block `stop` (exclusive).  Returns a list of
-        (kind, state, value): kind 'stop' (reached stop) or 'return' (function returned)."""
-        blocks = fr.body["blocks"]
+    def run_blocks(self, fr, pending, allowed=None, header=None):
+        """worklist execution of an acyclic region in reverse post-order with merging at joins.
+        pending: {bb: [states]}.  allowed: block set of the loop being executed (None: whole
+        function); header: its header.  Returns (returns [(state, value)], exits {bb: [states]})."""
         cfg = fr.cfg
-        while True:
-            if bb == stop:
-                return [("stop", st, None)]
-            if bb in cfg.loop_headers:
-                if bb in fr.active_loops:
-                    # back edge: one more iteration of an active loop
-                    self.loop_continue(st, fr, bb)
-                    return []
-                return self.enter_loop(st, fr, bb, stop)
-            blk = blocks[bb]
-            for s in blk["stmts"]:
-                self.statement(st, fr, s)
-            res = self.terminator(st, fr, bb, blk["term"], stop)
-            if isinstance(res, int):
-                bb = res
-                continue
-            return res
+        rpo = cfg.rpo_index
+        returns = []
+        exits = {}
+        first = True
+        while pending:
+            bb = min(pending, key=lambda b: rpo.get(b, 1 << 30))
+            states = pending.pop(bb)
+            if bb not in cfg.tail and len(states) > 1:
+                states = self.merge_groups(states)
+            for st in states:
+                if bb in cfg.loop_headers and not (first and bb == header):
+                    lret, lexits = self.do_loop(st, fr, bb)
+                    returns.extend(lret)
+                    for nb, ss in lexits.items():
+                        if allowed is not None and nb not in allowed:
+                            exits.setdefault(nb, []).extend(ss)
+                        elif nb == header:
+                            for s2 in ss:
+                                self.loop_continue(s2, fr, header)
+                        else:
+                            pending.setdefault(nb, []).extend(ss)
+                    continue
+                for s2, nxt, val in self.exec_block(st, fr, bb):
+                    if nxt is None:
+                        returns.append((s2, val))
+                    elif header is not None and nxt == header:
+                        self.loop_continue(s2, fr, header)
+                    elif allowed is not None and nxt not in allowed:
+                        exits.setdefault(nxt, []).append(s2)
+                    else:
+                        pending.setdefault(nxt, []).append(s2)
+            first = False
+        return returns, exits
 
-    def run_many(self, conts, fr, stop):
-        """continue several (state, bb) pairs to `stop`, concatenating results"""
-        out = []
-        for st, bb in conts:
-            out.extend(self.run_region(st, fr, bb, stop))
-        return out
-
-    def terminator(self, st, fr, bb, t, stop):
+    def exec_block(self, st, fr, bb):
+        """execute one basic block. -> [(state, next block | None for return, return value)]"""
+        blk = fr.body["blocks"][bb]
+        for s in blk["stmts"]:
+            self.statement(st, fr, s)
+        t = blk["term"]
         k = t["k"]
         if k == "goto":
-            return t["target"]
+            return [(st, t["target"], None)]
         if k == "return":
-            v = st.mem.get(("L", fr.fid, 0), UNITV)
-            return [("return", st, v)]
-        if k == "unreachable":
+            return [(st, None, st.mem.get(("L", fr.fid, 0), UNITV))]
+        if k in ("unreachable", "resume", "terminate"):
             return []
         if k == "drop":
-            return t["target"]
+            return [(st, t["target"], None)]
         if k == "switch":
-            return self.do_switch(st, fr, bb, t, stop)
+            return [(s, tgt, None) for s, tgt in self.do_switch(st, fr, bb, t)]
         if k == "assert":
-            return self.do_assert(st, fr, bb, t, stop)
+            return [(s, t["target"], None) for s in self.do_assert(st, fr, bb, t)]
         if k == "call":
             conts = self.do_call(st, fr, bb, t)
             if t["target"] is None:
                 return []
-            if len(conts) == 1:
-                # stay iterative on the common single-continuation case
-                s2 = conts[0]
-                if s2 is not st:
-                    st.mem, st.facts, st.trace = s2.mem, s2.facts, s2.trace
-                return t["target"]
-            return self.run_many([(s, t["target"]) for s in conts], fr, stop)
-        if k in ("resume", "terminate"):
-            return []
+            if len(conts) > 1:
+                for i, s in enumerate(conts):
+                    self.counter += 1
+                    s.lineage = s.lineage + (self.counter,)
+            return [(s, t["target"], None) for s in conts]
         raise Undecided("terminator %s in %s" % (k, fr.fn_id))
 
-    def do_assert(self, st, fr, bb, t, stop):
+    def do_assert(self, st, fr, bb, t):
         c = self.operand(st, fr, t["cond"])
         p = c.p if isinstance(c, BoolV) else self.to_int(c).poly()
         p = st.facts.simplify(p)
-        exp = 1 if t["expected"] else 0
-        good = p if exp else b_not(p)      # 0/1 poly: assertion holds
-        cv = good.const_value()
-        if cv == 1:
-            return t["target"]
-        bad = b_not(good)
-        if cv == 0 or self.feasible(st, bad):
-            # the assertion can fail on this path: a panic outcome (E4 obligation)
-            ps = st.fork()
-            if cv == 0 or ps.facts.assume(bad, 1):
-                msg = t["msg"]
-                info = {"kind": "assert", "what": msg["k"], "op": msg.get("op"), "fn": fr.fn_id, "span": t["span"],
-                        "cond": repr(good), "stack": fr.stack}
-                for key in ("a", "b", "len", "index"):
-                    if key in msg:
-                        try:
-                            info[key] = repr(self.operand(ps, fr, msg[key]))
-                        except Undecided:
-                            info[key] = "?"
-                self.terminate("panic", ps, info)
-            if cv == 0:
-                return []
-        if not st.facts.assume(good, 1):
+        good = p if t["expected"] else b_not(p)
+        msg = t["msg"]
+        info = {"kind": "assert", "what": msg["k"], "op": msg.get("op"), "span": t["span"]}
+        for key in ("a", "b", "len", "index"):
+            if key in msg:
+                try:
+                    info[key] = repr(self.operand(st, fr, msg[key]))
+                except Undecided:
+                    info[key] = "?"
+        if not self.obligation(st, fr, good, info):
             return []
-        return t["target"]
+        return [st]
 
     def obligation(self, st, fr, good, info):
-        """a condition that must hold or the program panics (bounds, unwrap, ...).
-        Records a panic outcome if it may fail; assumes it afterwards. Returns False if the
-        continuing path is infeasible."""
+        """a condition that must hold or the program panics (overflow, bounds, unwrap, ...).
+        Records a panic outcome if it may fail on this path and assumes it afterwards.
+        Returns False if the continuing path is infeasible."""
         good = st.facts.simplify(good)
         cv = good.const_value()
         if cv == 1:
+            self.discharged += 1
             return True
         bad = b_not(good)
         if cv == 0 or self.feasible(st, bad):
@@ -1049,6 +1073,8 @@ class Executor:
                 self.terminate("panic", ps, d)
             if cv == 0:
                 return False
+        else:
+            self.discharged += 1
         return st.facts.assume(good, 1)
 
     def terminate(self, kind, st, info):
@@ -1059,7 +1085,8 @@ class Executor:
             raise Undecided("path budget exceeded")
         self.terminated.append(Outcome(kind, st, None, info))
 
-    def do_switch(self, st, fr, bb, t, stop):
+    def do_switch(self, st, fr, bb, t):
+        """-> [(state, target)] for every feasible edge"""
         dv = self.operand(st, fr, t["discr"])
         if isinstance(dv, BoolV):
             D = dv.p
@@ -1067,18 +1094,15 @@ class Executor:
             D = dv.poly()
         else:
             D = self.discr_poly(dv, st.facts)
-        by_val, cst = self.switch_conds(st, D, t["arms"])
+        by_val, cst = self.switch_conds(st, D)
         arms = [(int(v), tgt) for v, tgt in t["arms"]]
+        mask = ((1 << dv.bits) - 1) if isinstance(dv, IntV) else None
         if by_val is None:
             for v, tgt in arms:
-                if v == cst:
-                    return tgt
-            # constants of signed types appear as unsigned bit patterns in switch arms
-            for v, tgt in arms:
-                if isinstance(dv, IntV) and dv.signed and v == (cst & ((1 << dv.bits) - 1)):
-                    return tgt
-            return t["otherwise"]
-        edges = []  # (cond, target)
+                if v == cst or (mask is not None and v == (cst & mask)):
+                    return [(st, tgt)]
+            return [(st, t["otherwise"])]
+        edges = []
         if by_val == "generic":
             D = st.facts.simplify(D)
             rest = ONE
@@ -1088,24 +1112,17 @@ class Executor:
                 rest = rest * b_not(c)
             edges.append((rest, t["otherwise"]))
         else:
-            arm_vals = {}
-            for v, tgt in arms:
-                arm_vals[v] = tgt
-            other = ZERO
+            arm_vals = dict(arms)
             per_tgt = {}
             for val, cond in by_val.items():
                 key = val
-                if key not in arm_vals and isinstance(dv, IntV) and dv.signed and val is not None and val < 0:
-                    key = val & ((1 << dv.bits) - 1)
+                if key not in arm_vals and mask is not None and val is not None and val < 0:
+                    key = val & mask
                 tgt = arm_vals.get(key, t["otherwise"])
                 per_tgt[tgt] = per_tgt.get(tgt, ZERO) + cond
-            order = [tgt for _, tgt in arms] + [t["otherwise"]]
-            done = set()
-            for tgt in order:
-                if tgt in per_tgt and tgt not in done:
-                    done.add(tgt)
-                    edges.append((per_tgt[tgt], tgt))
-        # merge edges going to the same target
+            for tgt in [tg for _, tg in arms] + [t["otherwise"]]:
+                if tgt in per_tgt:
+                    edges.append((per_tgt.pop(tgt), tgt))
         merged = {}
         order = []
         for c, tgt in edges:
@@ -1114,88 +1131,102 @@ class Executor:
             else:
                 merged[tgt] = c
                 order.append(tgt)
+        blocks = fr.body["blocks"]
         feas = []
         for tgt in order:
             c = merged[tgt]
-            if fr.body["blocks"][tgt]["term"]["k"] == "unreachable" and not fr.body["blocks"][tgt]["stmts"]:
+            if blocks[tgt]["term"]["k"] == "unreachable" and not blocks[tgt]["stmts"]:
                 continue
             if self.feasible(st, c):
                 feas.append((c, tgt))
         if not feas:
             return []
+        out = []
         if len(feas) == 1:
             c, tgt = feas[0]
-            if not st.facts.assume(c, 1):
-                return []
-            return tgt
-        j = fr.cfg.ipdom.get(bb, EXIT)
-        if j in fr.cfg.tail:
-            j = EXIT
-        base_len = len(st.trace)
-        base_facts = st.facts
-        results = []
-        reach = []
+            if st.facts.assume(c, 1):
+                out.append((st, tgt))
+            return out
         for c, tgt in feas:
             s2 = st.fork()
-            if not s2.facts.assume(c, 1):
-                continue
-            if j != EXIT and j is not None and j != stop:
-                for kind, s3, v in self.run_region(s2, fr, tgt, j):
-                    if kind == "stop":
-                        reach.append((c, s3))
-                    else:
-                        results.append((kind, s3, v))
-            else:
-                results.extend(self.run_region(s2, fr, tgt, stop))
-        if j != EXIT and j is not None and j != stop:
-            if reach:
-                ms = self.merge(st, base_len, base_facts, reach)
-                results.extend(self.run_region(ms, fr, j, stop))
-        return results
+            if s2.facts.assume(c, 1):
+                out.append((s2, tgt))
+        return out
 
     # ================================================================ merging
-    def merge(self, base, base_len, base_facts, reach):
-        """merge states that reached the same join point. reach: [(edge cond, state)]"""
-        if len(reach) == 1:
-            return reach[0][1]
-        nlog = len(base_facts.log)
+    def merge_groups(self, states):
+        groups = {}
+        order = []
+        for s in states:
+            if s.lineage not in groups:
+                groups[s.lineage] = []
+                order.append(s.lineage)
+            groups[s.lineage].append(s)
+        out = []
+        for l in order:
+            g = groups[l]
+            out.append(g[0] if len(g) == 1 else self.merge_states(g))
+        return out
+
+    def merge_states(self, group, values=None):
+        """if-then-else merge of states standing at the same program point.
+        values: optional parallel list of values to merge alongside. Returns state (or (state, value))."""
+        logs = [s.facts.log for s in group]
+        k = 0
+        n = min(len(l) for l in logs)
+        while k < n and all((l[k] is logs[0][k]) or (l[k][0] == logs[0][k][0] and l[k][1] == logs[0][k][1] and l[k][2] == logs[0][k][2])
+                            for l in logs[1:]):
+            k += 1
         conds = []
-        for c0, s in reach:
+        for s in group:
             c = ONE
-            for (p, val) in s.facts.log[nlog:]:
+            for (p, val) in s.facts.decisions(k):
                 c = c * (p if val else (ONE - p))
-            conds.append(base_facts.simplify(c))
+            conds.append(c)
         ms = State()
-        ms.facts = base_facts.copy()
-        # facts common to all branches could be kept; we keep only the pre-fork facts (sound)
-        ms.trace = list(reach[0][1].trace[:base_len])
-        sufs = [(c, s.trace[base_len:]) for c, (_, s) in zip(conds, reach)]
+        ms.lineage = group[0].lineage
+        ms.facts = Facts.replay(logs[0][:k])
+        total = ZERO
+        for c in conds:
+            total = total + c
+        if total.const_value() != 1:
+            ms.facts.assume(total, 1)
+        # trace: common prefix + alternatives
+        traces = [s.trace for s in group]
+        j = 0
+        m = min(len(t) for t in traces)
+        while j < m and all(t[j] is traces[0][j] for t in traces[1:]):
+            j += 1
+        ms.trace = list(traces[0][:j])
+        sufs = [(c, t[j:]) for c, t in zip(conds, traces)]
         if any(suf for _, suf in sufs):
             ms.trace.append(Alt(sufs))
         roots = []
         seen = set()
-        for _, s in reach:
+        for s in group:
             for r in s.mem:
                 if r not in seen:
                     seen.add(r)
                     roots.append(r)
         for r in roots:
-            vals = [s.mem.get(r, Undef) for _, s in reach]
-            v = vals[-1]
-            same = all(x is vals[0] or veq(x, vals[0]) for x in vals[1:])
-            if same:
+            vals = [s.mem.get(r, Undef) for s in group]
+            if all(x is vals[0] or veq(x, vals[0]) for x in vals[1:]):
                 ms.mem[r] = vals[0]
                 continue
+            v = vals[-1]
             for c, x in reversed(list(zip(conds[:-1], vals[:-1]))):
                 v = mk_ite(c, x, v)
             ms.mem[r] = v
+        if values is not None:
+            v = values[-1]
+            for c, x in reversed(list(zip(conds[:-1], values[:-1]))):
+                v = mk_ite(c, x, v)
+            return ms, v
         return ms
 
     def call_single(self, st, fr, callee, subst, args, dest_ty, span):
         """call that must yield one continuing state: several return paths of the callee are
         merged (if-then-else on their path conditions). Mutates `st`. Returns the value."""
-        base_len = len(st.trace)
-        base_facts = st.facts.copy()
         res = self.call(st, fr, callee, subst, args, dest_ty, span)
         if not res:
             st.dead = True
@@ -1203,17 +1234,7 @@ class Executor:
         if len(res) == 1:
             s2, v = res[0]
         else:
-            nlog = len(base_facts.log)
-            conds = []
-            for s, _ in res:
-                c = ONE
-                for (p, val) in s.facts.log[nlog:]:
-                    c = c * (p if val else (ONE - p))
-                conds.append(base_facts.simplify(c))
-            s2 = self.merge(st, base_len, base_facts, [(None, s) for s, _ in res])
-            v = res[-1][1]
-            for c, (_, x) in reversed(list(zip(conds[:-1], res[:-1]))):
-                v = mk_ite(c, x, v)
+            s2, v = self.merge_states([s for s, _ in res], [x for _, x in res])
         if s2 is not st:
             st.mem, st.facts, st.trace = s2.mem, s2.facts, s2.trace
         return v
@@ -1227,7 +1248,6 @@ class Executor:
             return
         lid = self.loop_id(fr, header)
         rec = self.loops[lid]
-        # trace suffix since the LoopMark of this loop activation
         idx = None
         for i in range(len(st.trace) - 1, -1, -1):
             it = st.trace[i]
@@ -1237,19 +1257,21 @@ class Executor:
         suffix = st.trace[idx + 1:] if idx is not None else list(st.trace)
         rec["cont"].append({"trace": suffix, "state": st})
 
-    def enter_loop(self, st, fr, header, stop):
+    def do_loop(self, st, fr, header):
+        """abstract execution of a natural loop: havoc everything the body may write (found by
+        dry runs to a fixpoint), then run the body once from the header. -> (returns, exits)"""
         lid = self.loop_id(fr, header)
-        # 1. havoc set by dry runs to a fixpoint
+        blocks = fr.cfg.loops[header]
         written = set()
-        fr.active_loops.add(header)
-        for _round in range(6):
+        self._known_roots = set(self.root_types)
+        for _round in range(8):
             probe = st.fork()
             self.havoc(probe, fr, written, lid)
             log = set()
             saved_log, self.write_log = self.write_log, log
             self.dry += 1
             try:
-                self.run_loop_body(probe, fr, header, stop)
+                self.run_blocks(fr, {header: [probe]}, blocks, header)
             finally:
                 self.dry -= 1
                 self.write_log = saved_log
@@ -1260,29 +1282,17 @@ class Executor:
                 break
             written |= new
         else:
-            fr.active_loops.discard(header)
             raise Undecided("loop havoc set did not stabilise in %s" % lid)
-        # 2. real run on the havoced state
         self.havoc(st, fr, written, lid)
         if not self.dry:
-            self.loops[lid] = {"cont": [], "fn": fr.fn_id, "header": header, "havoc": sorted(repr(w) for w in written),
-                               "span": fr.body["blocks"][header]["term"].get("span")}
+            self.loops[lid] = {"cont": [], "fn": fr.fn_id, "header": header,
+                               "havoc": sorted(self.describe_loc(r, p) for r, p in written),
+                               "span": fr.body["blocks"][header]["term"].get("span"), "exits": []}
             st.trace.append(LoopMark(lid))
-        try:
-            res = self.run_loop_body(st, fr, header, stop)
-        finally:
-            fr.active_loops.discard(header)
-        return res
-
-    def run_loop_body(self, st, fr, header, stop):
-        blocks = fr.body["blocks"]
-        blk = blocks[header]
-        for s in blk["stmts"]:
-            self.statement(st, fr, s)
-        res = self.terminator(st, fr, header, blk["term"], stop)
-        if isinstance(res, int):
-            return self.run_region(st, fr, res, stop)
-        return res
+        rets, exits = self.run_blocks(fr, {header: [st]}, blocks, header)
+        if not self.dry:
+            self.loops[lid]["exits"] = sorted(exits)
+        return rets, exits
 
     def relevant_writes(self, st, fr, log):
         """locations written in the loop that exist outside the loop body's own callee frames"""
@@ -1290,6 +1300,8 @@ class Executor:
         for root, path in log:
             if root[0] == "L" and root[1] != fr.fid and root not in st.mem:
                 continue  # local of a frame created inside the loop
+            if root[0] == "O" and root not in st.mem and root not in self._known_roots:
+                continue  # object first seen inside the loop (fresh per iteration)
             out.add((root, path))
         return out
 
@@ -1375,7 +1387,7 @@ class Executor:
             return None
         for s in path:
             if s[0] == "f":
-                t = s[2] if len(s) > 2 else None
+                t = s[2].ty if len(s) > 2 and s[2] is not None else None
             elif s[0] in ("i", "ix"):
                 t = t.get("ty") if t.get("k") in ("array", "slice") else None
             elif s[0] == "d":
@@ -1591,15 +1603,18 @@ class Executor:
             raise Undecided("arity mismatch calling %s: %d args for %d params" % (rec["id"], len(args), n))
         for i, a in enumerate(args):
             st.mem[("L", f2.fid, i + 1)] = a
-        outs = self.run_region(st, f2, 0, None)
+        base_len = len(st.trace)
+        outs, _ = self.run_blocks(f2, {0: [st]})
         res = []
-        for kind, s2, v in outs:
-            if kind != "return":
-                raise Undecided("callee %s did not return" % rec["id"])
+        for s2, v in outs:
             # free the callee's locals
             for r in [r for r in s2.mem if r[0] == "L" and r[1] == f2.fid]:
                 del s2.mem[r]
             res.append((s2, v))
+        if len(res) > 1 and all(len(s2.trace) == base_len for s2, _ in res):
+            # several event-free return paths of a helper: merge them (if-then-else)
+            ms, v = self.merge_states([s2 for s2, _ in res], [x for _, x in res])
+            return [(ms, v)]
         return res
 
     def call_fn_value(self, st, fr, r, args, dest_ty, span):
@@ -1698,7 +1713,7 @@ class Executor:
                     except (IndexError, KeyError, Undecided):
                         pass
                 base += "." + fname
-                ty = s[2] if len(s) > 2 else None
+                ty = s[2].ty if len(s) > 2 and s[2] is not None else None
             elif s[0] == "d":
                 base += "@%s" % (s[1],)
             elif s[0] == "i":
@@ -1761,6 +1776,7 @@ class Executor:
         self.loops = {}
         self.notes = []
         self.paths = 0
+        self.discharged = 0
         self.called = {rec["id"]}
         st = State()
         body = rec["body"]
@@ -1779,11 +1795,12 @@ class Executor:
                 nm = (arg_names or {}).get(i) or names.get(i) or "arg%d" % i
                 v = self.mk_sym(self.normalize(self.local_ty(fr, i)), nm)
             st.mem[("L", fr.fid, i)] = v
-        outs = self.run_region(st, fr, 0, None)
+        outs, _ = self.run_blocks(fr, {0: [st]})
         res = Result()
         res.entry = rec["id"]
         res.frame = fr
-        for kind, s, v in outs:
+        res.discharged = self.discharged
+        for s, v in outs:
             res.outcomes.append(Outcome("return", s, v, None))
         res.outcomes.extend(self.terminated)
         res.loops = self.loops
